@@ -36,7 +36,8 @@ def dup(rng, name, value, other=None):
 
 def build_request(r, rng):
     line = {"ok": b"GET /chat?x=1 HTTP/1.1", "post": b"POST /chat HTTP/1.1", "http10": b"GET /chat HTTP/1.0",
-            "two-parts": b"GET /chat", "fragment": b"GET /chat#frag HTTP/1.1"}[r["line"]]
+            "two-parts": b"GET /chat", "fragment": b"GET /chat#frag HTTP/1.1",
+            "badversion": b"GET /chat HTTP/" + rng.choice([b"1.x", b"1.1junk", b"1.1.1", b"x", b"~", b"\xb9.\xb9", b"1,1", b"11"])}[r["line"]]
     h = []
     if r["host"] == "ok":
         # (every spelling of a host with the right port or with none: names, IPv4 and bracketed IPv6 literals, and the
@@ -215,7 +216,8 @@ def run_server(inp, rng):
 
 def build_response(p_, key, other_key, rng):
     st = {"ok": b"HTTP/1.1 101 Switching Protocols", "200": b"HTTP/1.1 200 OK", "404": b"HTTP/1.1 404 Not Found",
-          "malformed": rng.choice([b"HTTP/1.1", b"FOO 101", b"HTTP/1.1 abc Switching"])}[p_["status"]]
+          "malformed": rng.choice([b"HTTP/1.1", b"FOO 101", b"HTTP/1.1 abc Switching", b"HTTP/1.1 10\xb9 Switching Protocols",
+                                   b"HTTP/1.1 \xb2\xb3 OK", b"HTTP/1.1 1O1 Switching Protocols"])}[p_["status"]]
     h = []
     up = {"ok": b"websocket", "ok-mixedcase": b"WebSocket", "other": b"h2c",
           "superstring": rng.choice([b"websocket2", b"xwebsocket", b"websockets", b"not-websocket/1.0"])}.get(p_["upgrade"])
